@@ -72,9 +72,9 @@ cdef class cyVariables:
         if not isinstance(idx, slice):
             raise TypeError(f"indices must be integers or slices, not {type(idx)}")
 
-        cdef Py_ssize_t start = 0 if idx.start is None else idx.start
-        cdef Py_ssize_t stop = self.size() if idx.stop is None else idx.stop
-        cdef Py_ssize_t step = 1 if idx.step is None else idx.step
+        # like list, handle negative, missing and out-of-range values
+        cdef Py_ssize_t start, stop, step
+        start, stop, step = idx.indices(self.size())
 
         cdef Py_ssize_t i
         cdef cyVariables new = type(self)()
